@@ -604,6 +604,73 @@ def vocab_nexml_doc(first, later, layout):
     return "\n".join(L) + "\n", list(layout)
 
 
+# ---------------------------------------------------------------------------
+# multi-source menus: small documents over one label pool that are read one after the other
+# into ONE namespace (same labels in another TAXA / otu / TRANSLATE order, the same ids or
+# tokens bound to other labels, subsets and supersets of the labels, different tree counts)
+
+def _nexus_multi(order, translate, trees, taxa_block=True):
+    """order: labels in TAXA / TRANSLATE order; translate: None | 'num' | 'alpha'; trees: shapes over
+    indices into `order`"""
+    L = ["#NEXUS"]
+    if taxa_block:
+        L += ["BEGIN TAXA;", " DIMENSIONS NTAX=%d;" % len(order), " TAXLABELS %s;" % " ".join(order), "END;"]
+    L.append("BEGIN TREES;")
+    if translate:
+        toks = [("%d" % (j + 1)) if translate == "num" else ("T%d" % (j + 1)) for j in range(len(order))]
+        L.append(" TRANSLATE " + ", ".join("%s %s" % (t, l) for t, l in zip(toks, order)) + ";")
+    else:
+        toks = list(order)
+    for k, sh in enumerate(trees):
+        L.append(" TREE t%d = %s;" % (k + 1, newick_body(sh, lambda i: toks[i], "int", False, "none")))
+    L.append("END;")
+    return "\n".join(L) + "\n"
+
+
+def _nexml_multi(order, otus_id, trees):
+    labs = [(l, l) for l in order]
+    L = [NEXML_HEAD.rstrip("\n"), '<otus id="%s" label="taxa">' % otus_id]
+    for j, l in enumerate(order):
+        L.append(' <otu id="%s_t%d" label="%s"/>' % (otus_id, j, l))
+    L.append("</otus>")
+    L.append('<trees id="trs0" label="block0" otus="%s">' % otus_id)
+    ids = ["%s_t%d" % (otus_id, j) for j in range(len(order))]
+    for k, sh in enumerate(trees):
+        L += [" " + x for x in nexml_tree("tr%d" % k, k, sh, ids, labs, False, "int", False, False)]
+    L.append("</trees>")
+    L.append("</nex:nexml>")
+    return "\n".join(L) + "\n"
+
+
+S4 = ((0, 1), (2, 3))
+S4b = (0, (1, (2, 3)))
+S3 = (0, (1, 2))
+S5 = ((0, 4), (1, (2, 3)))
+
+
+def multi_menu(schema):
+    """[(name, text, number of trees)]"""
+    if schema == "newick":
+        return [("base", "((a,b),(c,d));\n", 1),
+                ("reordered-2-trees", "((d,c),(b,a));\n(a,(b,(c,d)));\n", 2),
+                ("subset", "(a,(b,c));\n", 1),
+                ("superset", "((a,e),(b,(c,d)));\n", 1),
+                ("reordered-3-trees", "(b,a,d,c);\n(c,d,a,b);\n(d,(c,(b,a)));\n", 3)]
+    if schema == "nexus":
+        return [("base", _nexus_multi(["a", "b", "c", "d"], "num", [S4]), 1),
+                ("rebound-tokens-2-trees", _nexus_multi(["d", "c", "b", "a"], "num", [S4, S4b]), 2),
+                ("subset-no-taxa-block", _nexus_multi(["a", "b", "c"], None, [S3], taxa_block=False), 1),
+                ("superset", _nexus_multi(["a", "b", "c", "d", "e"], "num", [S5]), 1),
+                ("reordered-alpha-tokens", _nexus_multi(["b", "a", "d", "c"], "alpha", [S4b]), 1)]
+    if schema == "nexml":
+        return [("base", _nexml_multi(["a", "b", "c", "d"], "o1", [S4]), 1),
+                ("rebound-ids-2-trees", _nexml_multi(["d", "c", "b", "a"], "o1", [S4, S4b]), 2),
+                ("subset", _nexml_multi(["a", "b", "c"], "o1", [S3]), 1),
+                ("superset", _nexml_multi(["a", "b", "c", "d", "e"], "o1", [S5]), 1),
+                ("reordered-other-otus-id", _nexml_multi(["b", "a", "d", "c"], "o2", [S4b]), 1)]
+    raise ValueError(schema)
+
+
 def selftest():
     t, b = newick_doc(dict(n_trees=2, rooting="mixed", weights=True, com="both", nl="\n", lens="int", ilab=True))
     assert t.count(";") == 2 and b == [2]
